@@ -22,7 +22,8 @@ CFG = {"legs": 2, "sig": 16}
 
 def run(case) -> dict:
     """case: [config, flavour, ft, sub_ns, [earlier fts...]]"""
-    config, fl, ft, sub_ns, history = case
+    config, fl, ft, sub_ns, history = case[:5]
+    tick_ns = case[5] if len(case) > 5 else 0  # clock advance per reading: the clock moves while the call runs
     world = W.World(ft & 0xFFFFFFFF)
     record: list = []
     cache = offline.new_cache(RK) if config == "rk" else offline.new_cache()
@@ -35,6 +36,8 @@ def run(case) -> dict:
         out = None
         for i, (t_ft, t_sub) in enumerate(instants):
             world.clock.set_filetime(t_ft, t_sub)
+            world.clock.tick_per_read_ns = tick_ns if i == len(instants) - 1 else 0
+            world.clock.reads.clear()
             before = len(dc.getkey_log) if config == "seed" else 0
             kw = {"server": offline.DC} if config == "seed" else {}
             out = drive.classify(lambda: offline.call_api(world, fl, "protect", b"x", SID, root_key_identifier=RK.root_key_id, cache=cache, **kw))
@@ -46,13 +49,26 @@ def run(case) -> dict:
                 out = drive.Outcome("raise", exc=e)
                 break
             from_cache = config == "rk" or len(dc.getkey_log) == before
-            observed.append((t_ft, (p["l0"], p["l1"], p["l2"]), from_cache))
+            reads = list(world.clock.reads)
+            t_last = (max(reads) // 100 + gkdi.FILETIME_EPOCH) if reads else t_ft
+            observed.append((t_ft, (p["l0"], p["l1"], p["l2"]), from_cache, t_last))
     viol = None
     if out.kind != "ok":
         viol = common.violation("C09", "protect-failed", fl + "-" + config, *drive.exc_sig(out), "", f"protect at filetime {ft} failed: {out.exc!r}")
     else:
-        for t_ft, got, from_cache in observed:
+        for t_ft, got, from_cache, t_last in observed:
             want = gkdi.interval_of_filetime(t_ft)
+            if t_last != t_ft and from_cache:
+                # the clock moved while the call ran: any interval containing an instant between the first and the last reading is right
+                probes["clock_moved_during_call"] = 1
+                lo, hi = gkdi.interval_of_filetime(t_ft), gkdi.interval_of_filetime(t_last)
+                if lo != hi:
+                    probes["boundary_crossed_during_call"] = 1
+                if lo <= got <= hi and (got == lo or got == hi or gkdi.interval_start_filetime(*got) >= t_ft):
+                    continue
+                viol = common.violation("C09", "interval", fl + "-" + config, "torn-reading", "", "",
+                                        f"clock moved from filetime {t_ft} ({lo}) to {t_last} ({hi}) during the call; the blob names {got}, which contains no instant of that span")
+                break
             if from_cache:
                 probes["from_cache"] = 1
                 if config == "seed":
@@ -66,8 +82,9 @@ def run(case) -> dict:
                                         f"clock filetime {t_ft} (+{sub_ns} ns) lies in interval {want} but the blob names {got}; "
                                         f"{(1024 * B - d0) if got > want else d0} ticks from the L0 boundary")
                 break
-    pos = gkdi.interval_of_filetime(ft)
-    return {"viol": viol, "digest": world.digest() + str(observed), "key": common.key_hash([config, ft, sub_ns, history]),
+    if tick_ns:
+        probes["clock_ticks_per_read"] = 1  # (the unchanged library reads the clock once per call, so no boundary is ever crossed inside a call)
+    return {"viol": viol, "digest": world.digest() + str(observed), "key": common.key_hash([config, ft, sub_ns, history, tick_ns]),
             "fired": {"clk_set": len(history) + 1, "clk_jump_back": sum(1 for a, b_ in zip(history + [ft], (history + [ft])[1:]) if b_ < a)},
             "probes": probes, "vtime_ns": world.stats.get("vtime_ns", 0)}
 
@@ -78,12 +95,13 @@ class C09(common.Check):
     rule = ("case = (cache configuration rk|seed, flavour, clock instant in 100 ns ticks + sub-tick ns, earlier instants on the same cache). "
             "Enumerated: every L0 boundary 1970..2200 (L0 315..513) x every tick offset -64..+64; L1 and L2 boundaries in 40 L0 epochs x "
             "offsets; sub-tick offsets 0/1/50/99 ns; PRNG instants across 1970..2200; clock jumps backwards/forwards between calls sharing "
-            "a cache; 'seed' cases obtain an envelope from the reference DC late in the epoch and protect after the clock jumped back. "
+            "a cache; a clock that advances 1..1000 ticks per reading so that one call straddles an L2/L1/L0 boundary (any interval containing an "
+            "instant between its first and last reading is accepted); 'seed' cases obtain an envelope from the reference DC late in the epoch and protect after the clock jumped back. "
             "Non-trivial = instant within 64 ticks of an interval boundary or a history with a clock jump; distinct = distinct tuple.")
     components = {"client": "real (ncrypt_protect_secret / async, KeyCache, _get_protection_gke_from_cache)", "clock": "simulated (dpapi_ng._client.time seam)",
                   "DC": "model (RefDC) in the 'seed' configuration", "parser of the emitted blob": "model (ref.cms)"}
     assumptions = ["interval formula in exact integer arithmetic on FILETIME ticks (ref.gkdi.interval_of_filetime)"]
-    required_fired = ("from_cache", "from_cached_seed", "clk_jump_back")
+    required_fired = ("from_cache", "from_cached_seed", "clk_jump_back", "clock_ticks_per_read")
 
     def exhaustive(self, tier):
         return True
@@ -127,6 +145,11 @@ class C09(common.Check):
             late = l0 * 1024 * B + rng.randrange(512 * B, 1024 * B)
             back = l0 * 1024 * B + rng.choice((0, 1, 7, B - 1, B, 32 * B - 1, 32 * B, rng.randrange(0, late - l0 * 1024 * B)))
             out.append(["seed", rng.choice(("sync", "async")), back, 0, [late]])
+        # the clock advances between two readings inside one call and crosses an L2 / L1 / L0 boundary meanwhile
+        for l0 in range(330, 500, 7 if tier == "quick" else 1):
+            for k, tick_ticks in ((1, 1), (2, 1), (1, 2), (3, 2), (1, 1000)):
+                for base in (l0 * 1024 * B, (l0 * 1024 + 32 * (l0 % 31 + 1)) * B, (l0 * 1024 + l0 % 1000 + 1) * B):
+                    out.append(["rk", "sync" if (l0 + k) % 2 else "async", base - k, 0, [], tick_ticks * 100])
         for l0 in range(330, 500, 5 if tier == "quick" else 1):
             # obtain at the very end of the epoch, then protect within the last ticks of the epoch (still covered by the cached seed)
             end = (l0 + 1) * 1024 * B
@@ -138,7 +161,9 @@ class C09(common.Check):
         return run(case)
 
     def shrink(self, case):
-        config, fl, ft, sub, hist = case
+        config, fl, ft, sub, hist = case[:5]
+        if len(case) > 5:
+            return
         if hist and config == "rk":
             yield [config, fl, ft, sub, []]
             for i in range(len(hist)):
